@@ -401,3 +401,23 @@ _install0 = install
 def install(reg):
     _install0(reg)
     reg.add_hook("sorted", _sorted_hook)
+
+
+_install_s1 = install
+
+
+def install(reg):
+    _install_s1(reg)
+
+    def contains(eng, st, coll, x, node):
+        if isinstance(coll, _V) and coll.kind == "nodes":
+            K = _fld(st, coll.sd, "K").t
+            return z3.And(0 <= x.t, x.t < K)
+        return None
+    reg.add_hook("contains", contains)
+
+    def digraph(eng, st, node):
+        if node.args or node.keywords:
+            raise OutOfSubset("nx.DiGraph(<args>)")
+        return Val(TPN, T.EmptyPN)
+    reg.module_calls[("nx", "DiGraph")] = digraph
